@@ -32,7 +32,7 @@ class SpecError(Exception):
 
 
 REPLACE_KINDS = {"abstract-call", "abstract-op", "pattern-norm", "drop-log", "sink", "de-async",
-                 "type-stub"}
+                 "type-stub", "closure-contract"}
 
 
 def _attrs(s):
@@ -238,7 +238,7 @@ def generate(u, repo, specs_dir, twin_of=None):
     for x in u["uses"]:
         out.append(x if x.endswith(";") else x + ";")
         out.append("\n")
-    out.append("verus! {\n")
+    out.append("verus! {\n// every unit assumes a 64-bit target (listed in evidence)\nglobal size_of usize == 8;\n")
     for inc in u["includes"]:
         out.append("// ---- include %s\n" % inc)
         out.append(open("%s/%s" % (specs_dir, inc), encoding="utf-8").read())
